@@ -20,7 +20,8 @@ CONSTANTS Alphabet,   \* sequence of fragments (strings)
           MaxCore,    \* core fragments: documents up to this length
           Wrappers,   \* sequence of <<prefix, suffix>> put around the document (inline contexts)
           MaxWrap,    \* nesting bound of wrappers
-          MaxDeep     \* length bound of documents wrapped more than once
+          MaxDeep,    \* length bound of documents wrapped more than once
+          DeepWraps   \* the Mid/Core depth tiers apply to documents with at most this many wrappers
 
 VARIABLES doc,        \* sequence of indices into Alphabet
           wraps       \* sequence of indices into Wrappers, outermost first
@@ -34,8 +35,8 @@ AllMid(d)  == \A k \in DOMAIN d : d[k] \in Mid
 
 Extend(i) ==
     /\ \/ Len(doc) < (IF Len(wraps) >= 2 THEN MaxDeep ELSE MaxAll)
-       \/ Len(wraps) < 2 /\ Len(doc) < MaxCore /\ AllCore(doc) /\ i \in Core
-       \/ Len(wraps) < 2 /\ Len(doc) < MaxMid /\ AllMid(doc) /\ i \in Mid
+       \/ Len(wraps) <= DeepWraps /\ Len(doc) < MaxCore /\ AllCore(doc) /\ i \in Core
+       \/ Len(wraps) <= DeepWraps /\ Len(doc) < MaxMid /\ AllMid(doc) /\ i \in Mid
     /\ doc' = Append(doc, i)
     /\ UNCHANGED wraps
 
